@@ -22,6 +22,12 @@ ASSUME = [
     "number, finite float, float32-exact float for `float` fields, valid unicode); a Python bool passed for an "
     "int field, an int for a float field or UTF-8 bytes for a string field are accepted by protobuf but are "
     "outside the typed domain and not compared",
+    "received payloads: wf_payload requires finite floats and declared enum numbers (protobuf keeps unknown enum numbers "
+    "as unknown fields; NaN / infinities are accepted and compared at value level only); the payload generator follows "
+    "the same notion and every generated payload is classified by the extracted wf_payload / lossy_payload / gap_payload; "
+    "presence-equality of every modelled path is demanded of the implementation outside the PINNED lossy class "
+    "(corpus/C10/baseline_table.json: fields the from-side reads without a presence test), value-equality and "
+    "no-drop / no-alteration of present fields everywhere",
     "the tie model<->code is the converter table (structure) plus differential testing (semantics); the table is "
     "obtained twice per run: transcribed from the source by the fail-closed ast translator and MEASURED on the running "
     "code by harness/translators/c10_measure.py (probes per converter / field / direction, the model's own table "
@@ -718,6 +724,408 @@ def modelled_equal(info, conv, p, q, path=""):
     return None
 
 
+
+# ------------------------------------------------------------------ received payloads from the model's wf notion
+# (coq/C10/C10Payload.v: wf_payload / lossy_payload / gap_payload / pread_at / modelled_path)
+PDEFAULT = {"TStr": "", "TBytes": b"", "TBool": False, "TInt": 0, "TDouble": 0.0, "TFloat": 0.0}
+
+
+def sdefault(t):
+    return t[1][0] if t[0] == "TEnum" else PDEFAULT[t[0]]
+
+
+class PGen(object):
+    """payload generator following wf_payload: declared fields, typed values, non-empty repeated fields, nested
+    sub-messages of the declared type; the structure (which proto field is read how) comes from the pinned baseline"""
+
+    def __init__(self, info, rng):
+        self.info, self.rng = info, rng
+        self.reads = {}
+        for conv, c in info.convs.items():
+            r = {}
+            for (f, e, st, ck) in c["from"]:
+                if e[0] in ("FField", "FIfHas", "FIfTruthy", "FListOrEmpty"):
+                    how, pf, sub = ("plain" if e[0] == "FField" else "has"), e[1], None
+                elif e[0] in ("FConv", "FConvIfHas"):
+                    how, pf, sub = ("plain" if e[0] == "FConv" else "has"), e[2], e[1]
+                else:
+                    continue
+                old = r.get(pf)
+                r[pf] = ["plain" if (how == "plain" or (old and old[0] == "plain")) else "has", sub or (old and old[1])]
+            self.reads[conv] = r
+
+    def lossy(self, conv, p):
+        """Python mirror of lossy_payload on the PINNED structure: some field that the from-side reads without a
+        presence test (scalar or sub-message) is absent, at any nesting level the library models"""
+        sch = dict((f, t) for f, t in self.info.tab["schema"].get(self.info.convs[conv]["msg"], []))
+        for pf, (how, sub) in self.reads[conv].items():
+            t = sch.get(pf)
+            if t is None:
+                continue
+            if pf not in p:
+                if how == "plain" and t[0] in ("FScalar", "FMsg"):
+                    return True
+            elif sub and sub in self.info.convs and isinstance(p[pf], dict) and self.lossy(sub, p[pf]):
+                return True
+        return False
+
+    def scalar(self, t, mode="any"):
+        pl = pool(("scalar", tuple(t)))
+        if mode == "default":
+            return sdefault(t)
+        if mode == "nondefault":
+            return next((x for x in reversed(pl) if x != sdefault(t) and x), pl[-1])
+        return self.rng.choice(pl)
+
+    def msg(self, conv, depth, mode="random", p_set=0.5, hard=6):
+        """mode random: every declared field present with probability p_set;
+        complete: additionally every field the from-side reads WITHOUT a presence test is present (so the payload is
+        outside the lossy class); complete+defaults: additionally every modelled scalar is present, the presence-tested
+        ones with their proto default ('' / b'' / 0 / 0.0 / False): the classic truthiness-drop probe"""
+        info, rng = self.info, self.rng
+        c = info.convs[conv]
+        p = Rec({"@": c["msg"]})
+        reads = self.reads[conv]
+        for f, t in info.tab["schema"].get(c["msg"], []):
+            how = reads.get(f)
+            present = rng.random() < p_set
+            forced = False
+            if mode != "random" and how and how[0] == "plain":
+                present = forced = True
+            if t[0] == "FScalar":
+                if mode == "complete+defaults" and how:
+                    p[f] = self.scalar(t[1], "default" if how[0] == "has" else "any")
+                elif present:
+                    p[f] = self.scalar(t[1])
+            elif t[0] == "FRepeated":
+                if present and t[1][0] == "TStr":
+                    p[f] = rng.choice(LISTS[1:])
+            elif t[0] == "FMsg":
+                if how and how[1] and how[1] in info.convs:
+                    if (forced and hard > 0) or (present and depth > 0):
+                        p[f] = self.msg(how[1], depth - 1, mode, p_set, hard - 1)
+                elif not how and present and rng.random() < 0.3:
+                    p[f] = Rec({"@": t[1]})         # an unmodelled sub-message, present and empty
+        return p
+
+    def chain(self, depth, mode="complete"):
+        """Message -> X{context_info{quoted_message -> ...}}: nested quoted payloads"""
+        rng = self.rng
+        inner = Rec({"@": "Message", "conversation": rng.choice(STRS)})
+        carriers = [("extended_text_message", "extendedtext"), ("image_message", "image"),
+                    ("video_message", "video"), ("contact_message", "contact"), ("document_message", "document")]
+        for d in range(depth):
+            fld, conv = carriers[(d + rng.randrange(len(carriers))) % len(carriers)]
+            if conv not in self.info.convs:
+                fld, conv = carriers[0]
+            sub = self.msg(conv, 0, mode, 0.4)
+            ci = self.msg("contextinfo", 0, mode, 0.5)
+            ci["quoted_message"] = inner
+            sub["context_info"] = ci
+            inner = Rec({"@": "Message", fld: sub})
+        return inner
+
+
+def gen_wf_payloads(info, rng, tier):
+    """-> list of (stream, conv, Rec payload)"""
+    g = PGen(info, rng)
+    out = []
+    n = 30 if tier == "quick" else 500
+    for conv, c in info.convs.items():
+        out.append(("empty", conv, Rec({"@": c["msg"]})))
+        for _ in range(n):
+            out.append(("random", conv, g.msg(conv, rng.choice([0, 1, 2, 3]), "random", rng.choice([0.2, 0.5, 0.9]))))
+        for _ in range(n // 2):
+            out.append(("complete", conv, g.msg(conv, rng.choice([0, 1, 2, 3]), "complete", rng.choice([0.3, 0.7]))))
+        for _ in range(3 if tier == "quick" else 20):
+            out.append(("complete+defaults", conv, g.msg(conv, rng.choice([0, 1, 2]), "complete+defaults", 0.5)))
+        # one modelled scalar alone: present with its default, present with another value
+        for f, t in info.tab["schema"].get(c["msg"], []):
+            if t[0] == "FScalar" and f in g.reads[conv]:
+                out.append(("single-default", conv, Rec({"@": c["msg"], f: sdefault(t[1])})))
+                out.append(("single-value", conv, Rec({"@": c["msg"], f: g.scalar(t[1], "nondefault")})))
+    if "message" in info.convs and "contextinfo" in info.convs:
+        for d in range(1, (4 if tier == "quick" else 6)):
+            for _ in range(4 if tier == "quick" else 40):
+                out.append(("quoted-chain", "message", g.chain(d)))
+    # outside wf_payload (nothing is claimed, only compared at value level): non-finite floats
+    if "location" in info.convs:
+        for x in (float("inf"), float("-inf"), float("nan")):
+            out.append(("not-wf", "location", Rec({"@": info.convs["location"]["msg"], "degrees_latitude": x,
+                                                   "name": "n"})))
+    return out
+
+
+def real_reser_msgs(conv, p):
+    """build the payload, go through bytes, parse, re-serialise, parse again -> (bytes0, m0, bytes1, m1)"""
+    c = impl()["conv"]
+    try:
+        m = build_proto(p)
+        b0 = m.SerializeToString()
+        m0 = type(m)()
+        m0.ParseFromString(b0)
+        if conv == "message":
+            b1 = c.message_to_protobytes(c.protobytes_to_message(b0))
+        else:
+            b1 = getattr(c, conv + "_to_proto")(getattr(c, "proto_to_" + conv)(m0)).SerializeToString()
+        m1 = type(m)()
+        m1.ParseFromString(b1)
+        return ("ok", b0, m0, b1, m1)
+    except Exception as e:
+        return ("exn", exn_code(e), type(e).__name__ + ": " + str(e)[:160])
+
+
+def real_pread(m, path, with_defaults=False):
+    """pread_at on a real protobuf message: presence-aware (HasField / non-empty repeated); a sub-message at the end
+    of the path reads as a presence marker.  with_defaults: what `m.a.b.c` evaluates to (proto defaults)"""
+    from google.protobuf.descriptor import FieldDescriptor as F
+    for i, f in enumerate(path):
+        fd = m.DESCRIPTOR.fields_by_name.get(f)
+        if fd is None:
+            return None
+        last = i == len(path) - 1
+        if fd.label == F.LABEL_REPEATED:
+            if not last or fd.type == F.TYPE_MESSAGE:
+                return None
+            v = list(getattr(m, f))
+            return v if (v or with_defaults) else None
+        if not with_defaults and not m.HasField(f):
+            return None
+        v = getattr(m, f)
+        if fd.type == F.TYPE_MESSAGE:
+            if last:
+                return Rec({"@": fd.message_type.full_name})
+            m = v
+        else:
+            return v if last else None
+    return None
+
+
+def enum_paths(mf, conv, recs, prefix=()):
+    """modelled paths touching any of the given messages (Rec view): every modelled field of the converter, and below
+    every modelled sub-message that is present in one of them"""
+    out = []
+    for f, sub in mf.get(conv, []):
+        out.append(prefix + (f,))
+        if sub:
+            below = [r[f] for r in recs if isinstance(r.get(f), dict)]
+            if below and len(prefix) < 24:
+                out += enum_paths(mf, sub, below, prefix + (f,))
+    return out
+
+
+def path_report(paths, m0, m1):
+    """-> (strict differences, value-level problems) as printable strings"""
+    strict, value = [], []
+    for ph in paths:
+        a, b = real_pread(m0, ph), real_pread(m1, ph)
+        if norm(a) != norm(b):
+            strict.append("%s: %r became %r" % (".".join(ph), a, b))
+            da, db = real_pread(m0, ph, True), real_pread(m1, ph, True)
+            if a is not None and b is None:
+                value.append("%s: present %r was dropped" % (".".join(ph), a))
+            elif a is not None and b is not None:
+                value.append("%s: %r became %r" % (".".join(ph), a, b))
+            elif norm(da) != norm(db):
+                value.append("%s: reads %r, after re-serialisation %r" % (".".join(ph), da, db))
+    return strict, value
+
+
+def payload_verdict(g, mf, conv, q, wf_ok=True):
+    """-> (why or None, strict?, paths, reser result): the property oracle on one payload, implementation only"""
+    r = real_reser_msgs(conv, q)
+    if r[0] != "ok":
+        return ("raised " + r[2], False, [], r)
+    paths = enum_paths(mf, conv, [pcanon(r[2]), pcanon(r[4])])
+    strict, value = path_report(paths, r[2], r[4])
+    full = wf_ok and conv in g.info.convs and not g.lossy(conv, q)
+    if value:
+        return (value[0], False, paths, r)
+    if full and strict:
+        return (strict[0] + " (payload outside the lossy class: the full statement applies)", True, paths, r)
+    return (None, full, paths, r)
+
+
+def shrink_payload(g, mf, conv, p, budget=400):
+    """greedy: drop fields (at any nesting level) while the oracle still fails on the implementation"""
+    def fails(q):
+        v = payload_verdict(g, mf, conv, q)
+        return v[0] is not None and v[3][0] == "ok"
+
+    def walk(root, node):
+        nonlocal budget
+        for k in [k for k in list(node.keys()) if k != "@"]:
+            if budget <= 0:
+                return
+            saved = node.pop(k)
+            budget -= 1
+            if fails(root):
+                continue
+            node[k] = saved
+            if isinstance(saved, dict):
+                walk(root, saved)
+            elif isinstance(saved, list) and len(saved) > 1:
+                node[k] = saved[:1]
+                budget -= 1
+                if not fails(root):
+                    node[k] = saved
+    import copy
+    q = copy.deepcopy(p)
+    if not fails(q):
+        return p
+    walk(q, q)
+    return q
+
+
+def payload_stage(ctx, base, cur, model, mismatch_counter):
+    """generate payloads from wf_payload's notion, classify them with the extracted model, replay every one on the
+    implementation (parse -> serialise -> parse) and compare pread on every modelled path"""
+    payloads = gen_wf_payloads(base, ctx.rng, ctx.tier)
+    pargs = [[conv.encode(), [[k.encode(), to_sx(x)] for k, x in p.items() if k != "@"]] for (_, conv, p) in payloads]
+    classes = resers = None
+    mf = {}
+    if model:
+        for conv in cur.convs:
+            r = model.call("run_modelled", [conv.encode()])
+            mf[conv] = [(f.decode(), (sub.decode() or None)) for f, sub in r] if not isinstance(r, tuple) else []
+        classes = model.call_many("run_classify", pargs)
+        resers = model.call_many("run_reser", pargs)
+    g = PGen(base, ctx.rng.__class__(1))       # the pinned structure: which proto field is read how
+    if not model:                               # no model: modelled fields from the pinned baseline
+        for conv in base.convs:
+            mf[conv] = [(pf, how[1]) for pf, how in g.reads[conv].items()]
+    dist, stats = {}, {"payloads": len(payloads), "paths_compared": 0, "full_statement_applies": 0,
+                       "materialising": 0, "lossy_but_unchanged": 0, "lossy_class_differs_from_pinned": 0}
+    example = None
+    pread_jobs = []
+    shrinks = set()
+    for i, (stream, conv, p) in enumerate(payloads):
+        d = dist.setdefault(conv, {"wf": 0, "not_wf": 0, "lossy": 0, "gap": 0, "full_statement_applies": 0})
+        cl = classes[i] if classes else None
+        wf = lossy = gap = None
+        if cl is not None and not isinstance(cl, tuple):
+            wf, lossy, gap = bool(cl[0]), bool(cl[1]), bool(cl[2])
+            d["wf" if wf else "not_wf"] += 1
+            if wf and lossy:
+                d["lossy"] += 1
+            if wf and gap:
+                d["gap"] += 1
+            if wf and not lossy:
+                d["full_statement_applies"] += 1
+                stats["full_statement_applies"] += 1
+        r = real_reser_msgs(conv, p)
+        mres = resers[i] if resers else None
+        mp1 = None
+        if mres is not None and not isinstance(mres, tuple) and mres[0] == 0 and conv in cur.convs:
+            mp1 = pmsg_from_sx(mres[1], cur.convs[conv]["msg"])
+        if r[0] != "ok":
+            why = "raised " + r[2]
+            ctx.violation("oracle:reserialise_modelled_paths",
+                          {"conv": conv, "payload": jsonable(p), "stream": stream, "strict": False, "paths": [],
+                           "observed": why}, key=finding_key(conv, p, why))
+            if mres is not None and not (not isinstance(mres, tuple) and mres[0] == 1):
+                mismatch_counter[0] += 1
+                ctx.violation("correspondence:C10.payload_reserialise",
+                              {"conv": conv, "payload": jsonable(p), "model": repr(mres)[:400], "impl": why},
+                              found_input=True)
+            continue
+        _, b0, m0, b1, m1 = r
+        recs = [pcanon(m0), pcanon(m1)] + ([mp1] if mp1 is not None else [])
+        paths = enum_paths(mf, conv, recs)
+        stats["paths_compared"] += len(paths)
+        strict, value = path_report(paths, m0, m1)
+        # the full (presence-aware) statement is demanded of every well-formed payload outside the PINNED lossy class
+        # (corpus/C10/baseline_table.json), so a change that makes the converter materialise more is reported
+        pinned_lossy = g.lossy(conv, p) if conv in base.convs else True
+        full = (wf is not False) and stream != "not-wf" and not pinned_lossy
+        if wf and lossy is not None and bool(lossy) != bool(pinned_lossy):
+            stats["lossy_class_differs_from_pinned"] += 1
+        why = None
+        if value:
+            why = value[0]
+        elif full and strict:
+            why = strict[0] + " (payload outside the lossy class: the full statement applies)"
+        if why:
+            rec = {"conv": conv, "payload": jsonable(p), "stream": stream, "strict": bool(full),
+                   "paths": [list(ph) for ph in paths], "input_hex": b0.hex(), "output_hex": b1.hex(),
+                   "observed": why}
+            if conv not in shrinks:                # one record per converter is kept (see _dedupe): shrink that one
+                shrinks.add(conv)
+                q = shrink_payload(g, mf, conv, p)
+                qwhy, qstrict, qpaths, rq = payload_verdict(g, mf, conv, q)
+                if qwhy and rq[0] == "ok":
+                    rec.update({"payload": jsonable(q), "paths": [list(ph) for ph in qpaths], "strict": qstrict,
+                                "input_hex": rq[1].hex(), "output_hex": rq[3].hex(), "observed": qwhy,
+                                "shrunk_from_bytes": len(b0)})
+            ctx.violation("oracle:reserialise_modelled_paths", rec, key=finding_key(conv, p, why))
+        if strict and not value:
+            stats["materialising"] += 1
+            if example is None or len(b0) < len(bytes.fromhex(example["input_hex"])):
+                example = {"conv": conv, "input_hex": b0.hex(), "output_hex": b1.hex(), "paths": strict[:6]}
+        # the lossy class is exact: a wf payload in it (outside the gap class) does change
+        if wf and lossy and not gap and not strict:
+            stats["lossy_but_unchanged"] += 1
+            mismatch_counter[0] += 1
+            ctx.violation("correspondence:C10.lossy_exact",
+                          {"conv": conv, "payload": jsonable(p), "observed":
+                           "model says lossy_payload, the implementation re-serialises every modelled path unchanged"},
+                          found_input=False)
+        if model and wf:                     # outside wf_payload the model claims nothing (it may refuse the value)
+            sxp = [[f.encode() for f in ph] for ph in paths]
+            pread_jobs.append((i, conv, p, paths, m0, m1, mp1, bool(why),
+                               [conv.encode(), pargs[i][1], sxp],
+                               [conv.encode(), [[k.encode(), to_sx(x)] for k, x in mp1.items() if k != "@"], sxp]
+                               if mp1 is not None else None))
+    # model vs implementation on pread, path by path, on the received and on the re-serialised payload
+    if model and pread_jobs:
+        r0 = model.call_many("run_pread", [j[8] for j in pread_jobs])
+        r1 = iter(model.call_many("run_pread", [j[9] for j in pread_jobs if j[9] is not None]))
+        for j, a0 in zip(pread_jobs, r0):
+            (i, conv, p, paths, m0, m1, mp1, failed) = j[:8]
+            a1 = next(r1) if j[9] is not None else None
+            bad = None
+            if isinstance(a0, tuple) or isinstance(a1, tuple):
+                bad = "model raised: %r" % ((a0, a1),)
+            else:
+                for k, ph in enumerate(paths):
+                    for which, ans, m in (("received", a0, m0), ("re-serialised", a1, m1)):
+                        if ans is None:
+                            bad = bad or "model could not re-serialise, the implementation did"
+                            continue
+                        if not ans[k][0]:
+                            bad = bad or "%s: not a modelled path of the model" % ".".join(ph)
+                            continue
+                        mv = from_sx(ans[k][1][0]) if ans[k][1] else None
+                        rv = real_pread(m, ph)
+                        if norm(mv) != norm(rv):
+                            bad = bad or "%s (%s payload): model reads %r, implementation %r" % (
+                                ".".join(ph), which, mv, rv)
+            if bad:
+                mismatch_counter[0] += 1
+                ctx.violation("correspondence:C10.pread",
+                              {"conv": conv, "payload": jsonable(p), "strict": False,
+                               "paths": [list(ph) for ph in paths], "observed": bad}, found_input=failed)
+    ctx.coverage["payload_classes"] = dist
+    ctx.coverage["payload_stage"] = stats
+    if example:
+        ctx.coverage["payload_materialisation_example"] = example
+    if stats["lossy_class_differs_from_pinned"]:
+        ctx.notes.append("lossy_payload computed from the current table differs from the pinned structure on %d "
+                         "generated payloads" % stats["lossy_class_differs_from_pinned"])
+    if classes:
+        print("C10 received payloads (model wf_payload / lossy_payload / gap_payload, %d payloads, %d modelled paths "
+              "compared on the implementation):" % (stats["payloads"], stats["paths_compared"]))
+        for conv in sorted(dist):
+            d = dist[conv]
+            print("  %-34s wf %4d  not-wf %3d  lossy %4d  gap %3d  full-statement %4d" % (
+                conv, d["wf"], d["not_wf"], d["lossy"], d["gap"], d["full_statement_applies"]))
+        if stats["materialising"]:
+            print("  note: %d payloads re-serialise with absent modelled fields materialised as proto defaults "
+                  "(the lossy class of C10_reserialise_value_preserving; nothing present is dropped or altered)"
+                  % stats["materialising"])
+    return len(payloads)
+
+
 # ------------------------------------------------------------------ entities
 def entity_checks(ctx, info, cases):
     """ProtomessageProtocolEntity and the media entity classes: entity -> node -> entity"""
@@ -1080,6 +1488,9 @@ def run(ctx):
                 ctx.violation("correspondence:C10.reserialise",
                               {"conv": conv, "payload": jsonable(p), "model": repr(mr)[:600], "impl": repr(r)[:600]},
                               found_input=bool(why))
+    mm = [0]
+    n_pay = payload_stage(ctx, base, cur, model, mm)
+    mismatches += mm[0]
     n_ent = entity_checks(ctx, base, cases)
     if model:
         model.close()
@@ -1097,11 +1508,11 @@ def run(ctx):
         ctx.tie_broken_without_input("theorem:" + ctx.failing_theorem(), ctx.ties.get("proof"))
     if model is None and tab is not None and not ctx.violations:
         ctx.tie_broken_without_input("model-build:C10", ctx.ties.get("model-build:C10"))
-    ctx.coverage["evaluations"] = len(cases) + len(protos) + n_ent
+    ctx.coverage["evaluations"] = len(cases) + len(protos) + n_pay + n_ent
     ctx.coverage["distinct_nontrivial"] = nontrivial
     ctx.coverage["case_kinds"] = kinds
     ctx.coverage["in_computed_domain"] = in_dom_count
-    ctx.coverage["received_payloads"] = len(protos)
+    ctx.coverage["received_payloads"] = len(protos) + n_pay
     ctx.coverage["entity_roundtrips"] = n_ent
     ctx.coverage["computed_domain"] = domain_summary(model_exe=exe, info=cur, gen_info=gen_info, rng=ctx.rng) \
         if exe else "model not built"
@@ -1111,7 +1522,11 @@ def run(ctx):
              "all optional-field subsets per type (exhaustive up to the limit in coverage, pairwise above), "
              "every field x every boundary value, unequal aliases, malformed (None for a required field, ill-typed "
              "scalars), quoted-message chains to depth 3 (5 thorough), random deep objects; received payloads: random "
-             "well-formed messages per schema incl. unmodelled fields; entities: Protomessage + 8 media classes. "
+             "well-formed messages per schema incl. unmodelled fields, and payloads generated from the model's wf_payload "
+             "notion (random presence / complete / complete with proto defaults present / single field default and "
+             "non-default / quoted chains / non-finite floats), each classified by the extracted wf_payload, "
+             "lossy_payload, gap_payload and compared path by path (pread on every modelled path, presence included) "
+             "before and after parse -> serialise -> parse; entities: Protomessage + 8 media classes. "
              "non-trivial = distinct canonical object with >= 2 fields set",
         assumptions_text=ASSUME)
 
@@ -1176,6 +1591,26 @@ def replay(ctx, data):
         return 0
     base = Info(load_baseline())
     conv = case.get("conv")
+    if "payload" in case and "paths" in case:
+        # payload stage: parse -> serialise -> parse on the implementation, pread on every recorded modelled path
+        p = unjson(case["payload"])
+        r = real_reser_msgs(conv, p)
+        print("payload :", json.dumps(case["payload"])[:1000])
+        if r[0] != "ok":
+            print("observed: raised", r[2])
+            print("VIOLATION property=C10 replay=(replayed)")
+            return 1
+        strict, value = path_report([tuple(x) for x in case["paths"]], r[2], r[4])
+        why = value[0] if value else (strict[0] if (case.get("strict") and strict) else None)
+        print("received bytes      :", r[1].hex()[:400])
+        print("re-serialised bytes :", r[3].hex()[:400])
+        print("expected: every modelled field path reads the same%s;" %
+              (" (presence included)" if case.get("strict") else " value (nothing present dropped or altered)"),
+              "FAILS: " + why if why else "holds")
+        if why:
+            print("VIOLATION property=C10 replay=(replayed)")
+            return 1
+        return 0
     if "payload" in case:
         p = unjson(case["payload"])
         r = real_reser(base, conv, p)
